@@ -7,7 +7,8 @@ from ..oracles import Trace, V
 from ..world import make  # noqa: F401
 
 LEVEL = 'model_checking'
-RULE = ('max_history_size N in {1,2,3} (thorough: ..5); (a) every dispatch/pause sequence of main of length <= 5 (thorough 6) with more than N dispatches, handlers returning or pausing; '
+RULE = ('(also: a handler bursts more children than the history holds and awaits an evicted / the newest one) ' +
+        'max_history_size N in {1,2,3} (thorough: ..5); (a) every dispatch/pause sequence of main of length <= 5 (thorough 6) with more than N dispatches, handlers returning or pausing; '
         '(b) a handler bursting N+1..N+2 fire-and-forget or awaited children then pausing, main awaiting the parent; (c) a nested burst one level down, optionally on a second bus. '
         'bus.event_history is sampled at every recorder point (after every dispatch, at every handler entry/exit). all schedules <= L deviations. '
         'non-trivial = at least one eviction happened; distinct = distinct recorder traces')
@@ -70,6 +71,13 @@ def families(tier):
             hs = [dict(bus='A', pat='P', name='hp', prog=[('disp', 'A', 'C', 'await'), ('pause',)]), dict(bus='A', pat='C', name='hc', prog=hc),
                   dict(bus=gbus, pat='G', name='hg', prog=[('pause',)]), dict(bus='A', pat='X', name='hx', prog=[('ret', 0)])]
             add('c13.nested', f'k{k}-g{gbus}', N, hs, [('disp', 'A', 'P', 'await'), ('disp', 'A', 'X', 'await')], names=names, shape='nested')
+    # a handler dispatches more children than the history holds in one burst (the oldest are evicted from history while still QUEUED), then awaits
+    # one of the evicted ones / the newest one: what can be awaited must not depend on what the history still shows
+    for N in Ns:
+        for k, which in itertools.product((N + 1, N + 3), ('first', 'second', 'last')):
+            idx = {'first': 1, 'second': 2, 'last': k}[which]
+            hs = [dict(bus='A', pat='P', name='hp', prog=[('burst', 'A', 'Z', k), ('await_named', f'Z{idx}<'), ('pause',)]), dict(bus='A', pat='Z', name='hz', prog=[('pause',)])]
+            add('c13.await_evicted_child', f'k{k}-{which}', N, hs, [('disp', 'A', 'P', 'await'), ('disp', 'A', 'X', 'await')], shape='await_evicted')
     # chains of 3-4 nested fire-and-forget dispatches (root -> mid -> leaf ...), with N filler siblings per level so that every ancestor can be evicted while in flight
     for N in Ns:
         for depth, fill, lshape in itertools.product((3, 4), (0, 1), ('ret', 'pause')):
@@ -110,6 +118,12 @@ def oracle(spec, res):
         out.append(V('await_never_returns_after_eviction', f'{res["verdict"]}; pending awaits {[(a["who"], a["ev"]) for a in pend]}', N=min(N, 3)))
     if v == 'raised':
         out.append(V('main_raised', str(res['verdict'])))
+    # an await made inside a handler that came back normally came back with the awaited event complete - evicted from history or not
+    for a in tr.awaits:
+        if a['who'] in tr.who_info and a['kind'] == 'await-end':
+            st = tr.state_at(a['ev'], a['end'])
+            if st is not None and not Trace.st_complete(st):
+                out.append(V('await_of_evicted_event_returned_before_it_was_complete', f'{a["who"]} awaited {a["ev"]}: returned at seq {a["end"]} with {st}', N=min(N, 3)))
     order = {nm: i for i, nm in enumerate(res['final']['events'])}  # creation order (dict insertion order of world.events)
     for bus, hs in tr.hists.items():
         prev = ()
